@@ -69,6 +69,9 @@ class FakeBam:
     def get_reference_length(self, chr_id):
         return self.length
 
+    def get_tid(self, chr_id):
+        return -1 if self.length is None else 0        # pysam: -1 = the header does not list the sequence
+
     def reset(self):
         pass
 
@@ -115,12 +118,12 @@ def _params(mem):
                                  no_secondary=False, min_mapq=0)
 
 
-def real_collect_files(pairs, mem):
+def real_collect_files(pairs, mem, chr_record=None):
     """real AlignmentCollector (its own __init__), real storages / merger / split_coverage_regions; only the per-region
     worker is a recorder -> {'out': [[region, [[bam_index, rid]..]]..], 'stats': {...}}"""
     AP, ST, RG, DP = _mods()
     try:
-        col = AP.AlignmentCollector("chr1", pairs, _params(mem), None, None, None)
+        col = AP.AlignmentCollector("chr1", pairs, _params(mem), None, None, chr_record)
         col.process_alignments_in_region = lambda region, alns, gene_region=None: (tuple(region), [[i, rid_of(a)] for i, a in alns])
         out = [[list(r), lst] for r, lst in col.process()]
     except ERRS as ex:
@@ -567,7 +570,7 @@ def expected_stats(files):
             "primary": sum(1 for a in alns if not a[2] & 3 and not a[2] & 4), "unaligned": 0}
 
 
-def check_files(files, L=None, pairs_of=None):
+def check_files(files, L=None, pairs_of=None, chr_record=None):
     """the property on the real collector; returns (kind, detail) or None.  Record ids (a[4]) are unique over the files."""
     L = length_of(files) if L is None else L
     pairs_of = pairs_of or (lambda fs: fake_pairs(fs, L))
@@ -575,7 +578,7 @@ def check_files(files, L=None, pairs_of=None):
     span = {a[4]: (a[0], a[1] - 1) for f in files for a in f}
     res = {}
     for mode, hm in (("default", False), ("high_memory", True)):
-        r = real_collect_files(pairs_of(files), hm)
+        r = real_collect_files(pairs_of(files), hm, chr_record)
         if vlib.is_err(r):
             return ("multi_collector_raises:" + mode, r.get("exc"))
         res[mode] = r
